@@ -171,7 +171,7 @@ func transformLinkReferenceSpan(source []byte, nodes []*Inline, span Span) strin
 			}
 		}
 	}
-	return cases.Fold().String(strings.TrimSpace(sb.String()))
+	return cases.Fold().String(strings.Trim(sb.String(), " \t\r\n"))
 }
 
 // ChildCount returns the number of children the node has.
